@@ -464,6 +464,70 @@ pub fn run(args: &Args) -> Report {
             }
         }
     }
+    // ---------------- U2F registrations (the second way a new credential reaches the store): the resident-key
+    // option sent with them is "not requested", so under a full or a non-discoverable-only capability the
+    // record stores no user handle; under every capability a later CTAP2 assertion with the key handle
+    // returns a user handle exactly when the record stores one (and then that one)
+    for disc in [Disc::Full, Disc::OnlyNonDiscoverable, Disc::Forced] {
+        for handle_len in [16usize, 64] {
+            index += 1;
+            if only.map_or(false, |o| o != index) {
+                continue;
+            }
+            rep.eval();
+            let case = json!({"index": index, "level": "u2f", "capability": format!("{disc:?}"), "key_handle_len": handle_len});
+            rep.nontrivial(fnv_str(&case.to_string()));
+            let r = catch(|| {
+                use passkey_authenticator::U2fApi;
+                let rig = Rig::ok(disc);
+                let mut auth = crate::util::mk_auth(rig.store.clone(), rig.uv.clone(), AuthCfg::default());
+                let handle: Vec<u8> = (0..handle_len).map(|i| 0x40 + i as u8).collect();
+                let reg = block_on(auth.register(passkey_types::u2f::RegisterRequest { challenge: [7u8; 32], application: [9u8; 32] }, &handle)).map(|_| ()).map_err(|e| format!("{e:?}"));
+                let snap = rig.store.snapshot();
+                let told: Vec<bool> = rig.log.snapshot().iter().filter_map(|e| if let Ev::Save { rk, result: Ok(()), .. } = &e.ev { Some(*rk) } else { None }).collect();
+                let get = match (&reg, snap.first()) {
+                    (Ok(()), Some(s)) => Some(block_on(auth.get_assertion(ga_request(&s.rp_id, &[2u8; 32], Some(vec![descriptor(&s.id)]), None, true, false))).map(|r| r.user.map(|u| u.id.to_vec())).map_err(|e| status_byte_ref(&e))),
+                    _ => None,
+                };
+                (reg, snap, told, get)
+            });
+            match r {
+                Err((sig, d)) => rep.violate(&format!("u2f: {sig}"), d, case),
+                Ok((Err(e), snap, _, _)) => {
+                    rep.count("u2f_registration_refused");
+                    if !snap.is_empty() {
+                        rep.violate("u2f: a registration that failed stored a credential", e, case);
+                    }
+                }
+                Ok((Ok(()), snap, told, get)) => {
+                    rep.count("u2f_registered");
+                    let Some(s) = snap.first() else {
+                        rep.violate("u2f: registered credential not in the store", String::new(), case);
+                        continue;
+                    };
+                    if told != vec![false] {
+                        rep.violate("u2f: resident-key option sent with a U2F registration is not 'not requested'", format!("store told rk={told:?}"), case.clone());
+                    }
+                    if disc != Disc::Forced && s.user_handle.is_some() {
+                        rep.violate("u2f: user handle stored although the credential is not discoverable under the store capability", format!("rk not requested, capability {disc:?}, stored handle of {} bytes", s.user_handle.as_ref().map_or(0, |h| h.len())), case.clone());
+                    }
+                    match get {
+                        Some(Ok(uh)) => {
+                            rep.count("u2f_assertions_checked");
+                            if uh.as_deref() != s.user_handle.as_deref() {
+                                rep.violate("u2f: assertion returns a user handle differently from what the credential stores", format!("stored {:?}, returned {:?}", s.user_handle.as_ref().map(|h| h.len()), uh.map(|h| h.len())), case.clone());
+                            }
+                        }
+                        Some(Err(b)) => {
+                            rep.count("u2f_assertion_refused");
+                            rep.obs("u2f_assertion_refused_status", json!(b));
+                        }
+                        None => {}
+                    }
+                }
+            }
+        }
+    }
     // ---------------- the library's in-memory store (which finds by id alone): a credential registered under
     // one RP ID of the origin is asserted under another one (the host itself / its registrable parent /
     // the member absent) - whatever RP ID the assertion is made under, the user handle returned is the stored one
